@@ -227,6 +227,8 @@ type c07Case struct {
 	Rules []interface{} `json:"rules"`
 	Hows  []string      `json:"differences"`
 	State *facts.State  `json:"state"`
+	// State2: the facts of a second FetchMatchingRules / Execute call on the same instances
+	State2 *facts.State `json:"state_of_second_call,omitempty"`
 }
 
 type c07Outcome struct {
@@ -234,9 +236,14 @@ type c07Outcome struct {
 	Sink  interface{}
 	Has   bool
 	Err   string
+	// second call on the same instance, on other facts
+	Match2 bool
+	Sink2  interface{}
+	Has2   bool
+	Err2   string
 }
 
-func c07Observe(text string, names []string, st *facts.State) (map[string]c07Outcome, error) {
+func c07Observe(text string, names []string, st *facts.State, more ...*facts.State) (map[string]c07Outcome, error) {
 	lib, err := obs.Build(text)
 	if err != nil {
 		return nil, fmt.Errorf("build: %v", describeBuildErr(err))
@@ -287,6 +294,46 @@ func c07Observe(text string, names []string, st *facts.State) (map[string]c07Out
 		}
 		out[n] = o
 	}
+	if len(more) > 0 && more[0] != nil {
+		// the same two instances serve a second call each, on other facts
+		s3 := more[0].Copy()
+		dc3, err := obs.NewDataContext(s3)
+		if err != nil {
+			return nil, err
+		}
+		matched2, _, ferr2, pan2 := obs.Fetch(kb, dc3, false)
+		if pan2 != nil {
+			return nil, fmt.Errorf("second FetchMatchingRules panicked: %v", pan2)
+		}
+		mset2 := map[string]bool{}
+		for _, m := range matched2 {
+			mset2[m] = true
+		}
+		s4 := more[0].Copy()
+		dc4, err := obs.NewDataContext(s4)
+		if err != nil {
+			return nil, err
+		}
+		res2 := obs.Execute(kb2, dc4, obs.RunOpts{MaxCycle: uint64(len(names) + 2)})
+		if res2.Panicked != nil {
+			return nil, fmt.Errorf("second Execute panicked: %v", res2.Panicked)
+		}
+		j2, _ := obs.Capture(s4, dc4).JSON["J"].(map[string]interface{})
+		for _, n := range names {
+			o := out[n]
+			o.Match2 = mset2[n]
+			if ferr2 != nil {
+				o.Err2 = "fetch: " + ferr2.Error()
+			}
+			if res2.Err != nil {
+				o.Err2 += " execute: " + res2.Err.Error()
+			}
+			if v, ok := j2["out_"+n]; ok {
+				o.Sink2, o.Has2 = v, true
+			}
+			out[n] = o
+		}
+	}
 	return out, nil
 }
 
@@ -294,13 +341,20 @@ func sinkEqual(a, b c07Outcome) bool {
 	if a.Match != b.Match || a.Has != b.Has {
 		return false
 	}
-	if !a.Has {
-		return true
+	if a.Has && len(facts.DiffTrees("sink", a.Sink, b.Sink)) != 0 {
+		return false
 	}
-	return len(facts.DiffTrees("sink", a.Sink, b.Sink)) == 0
+	// the second call (when there was one, and it went through in both cases)
+	if a.Err2 != "" || b.Err2 != "" {
+		return (a.Err2 == "") == (b.Err2 == "")
+	}
+	if a.Match2 != b.Match2 || a.Has2 != b.Has2 {
+		return false
+	}
+	return !a.Has2 || len(facts.DiffTrees("sink", a.Sink2, b.Sink2)) == 0
 }
 
-func c07Run(rules []*c07Rule, st *facts.State, orders [][]int) (msgs []string, differ bool, err error) {
+func c07Run(rules []*c07Rule, st *facts.State, orders [][]int, more ...*facts.State) (msgs []string, differ bool, err error) {
 	names := make([]string, len(rules))
 	texts := make([]string, len(rules))
 	for i, r := range rules {
@@ -310,7 +364,7 @@ func c07Run(rules []*c07Rule, st *facts.State, orders [][]int) (msgs []string, d
 	// alone
 	alone := map[string]c07Outcome{}
 	for i, r := range rules {
-		o, err := c07Observe(texts[i], []string{r.Name}, st)
+		o, err := c07Observe(texts[i], []string{r.Name}, st, more...)
 		if err != nil {
 			return nil, false, fmt.Errorf("rule %s alone: %v", r.Name, err)
 		}
@@ -319,6 +373,23 @@ func c07Run(rules []*c07Rule, st *facts.State, orders [][]int) (msgs []string, d
 			return nil, false, fmt.Errorf("rule %s alone fails: %s", r.Name, o[r.Name].Err)
 		}
 		alone[r.Name] = o[r.Name]
+	}
+	// a rule whose own condition or action fails on the facts of the second call makes that call useless for
+	// every rule it is built with: the second call is then left out of the comparison
+	use2 := len(more) > 0 && more[0] != nil
+	for _, r := range rules {
+		if alone[r.Name].Err2 != "" {
+			use2 = false
+		}
+	}
+	strip := func(o c07Outcome) c07Outcome {
+		if !use2 {
+			o.Match2, o.Sink2, o.Has2, o.Err2 = false, nil, false, ""
+		}
+		return o
+	}
+	for n, o := range alone {
+		alone[n] = strip(o)
 	}
 	// reference
 	for _, r := range rules {
@@ -344,16 +415,16 @@ func c07Run(rules []*c07Rule, st *facts.State, orders [][]int) (msgs []string, d
 		for _, i := range ord {
 			b.WriteString(texts[i] + "\n")
 		}
-		together, oerr := c07Observe(b.String(), names, st)
+		together, oerr := c07Observe(b.String(), names, st, more...)
 		if oerr != nil {
 			msgs = append(msgs, fmt.Sprintf("rules %v built together (order %v): %v", hows(rules), ord, oerr))
 			continue
 		}
 		for _, r := range rules {
-			a, t := alone[r.Name], together[r.Name]
+			a, t := alone[r.Name], strip(together[r.Name])
 			if !sinkEqual(a, t) {
-				msgs = append(msgs, fmt.Sprintf("rule %s (%s) behaves differently when built with its siblings in order %v: alone match=%v sink=%v, together match=%v sink=%v err=%s",
-					r.Name, r.How, ord, a.Match, a.Sink, t.Match, t.Sink, t.Err))
+				msgs = append(msgs, fmt.Sprintf("rule %s (%s) behaves differently when built with its siblings in order %v: alone match=%v sink=%v, together match=%v sink=%v err=%s; second call on the same instance: alone match=%v sink=%v err=%q, together match=%v sink=%v err=%q",
+					r.Name, r.How, ord, a.Match, a.Sink, t.Match, t.Sink, t.Err, a.Match2, a.Sink2, a.Err2, t.Match2, t.Sink2, t.Err2))
 			}
 		}
 	}
@@ -385,7 +456,7 @@ func permutations(n int) [][]int {
 var c07StateCfg = gen.StateCfg{D: gen.Boundary, JSON: true, Top: true}
 
 func TestC07(t *testing.T) {
-	col := stats.New("C07", "a base rule (generated condition of depth 1-3 and a generated int/float/string value expression written to the rule's own JSON sink, then self-retraction) plus 1-5 near-identical siblings that each differ from the base in exactly one place: a float constant changed at the 7th decimal or by one ulp, sign, exponent, int versus float, a string constant changed by one character (also quote, bracket, arrow), a boolean, one operator, an added or removed negation, operand order, a selector (index, key, field), argument order, a function name, and white-box snapshot-injection siblings (two string arguments versus one argument spelling their separator in the snapshot syntax). Facts come from a boundary pool and are moved between the two constants when the difference is a compared constant. Oracle: FetchMatchingRules membership and the final sink of every rule built together with its siblings (all build orders up to 3 rules, 3 drawn orders above) equal those of the rule built alone; alone also equals the reference. Non-trivial: the siblings' results differ on the drawn facts. Distinct by the rule texts + state seed."+c07BystanderRule)
+	col := stats.New("C07", "a base rule (generated condition of depth 1-3 and a generated int/float/string value expression written to the rule's own JSON sink, then self-retraction) plus 1-5 near-identical siblings that each differ from the base in exactly one place: a float constant changed at the 7th decimal or by one ulp, sign, exponent, int versus float, a string constant changed by one character (also quote, bracket, arrow), a boolean, one operator, an added or removed negation, operand order, a selector (index, key, field), argument order, a function name, and white-box snapshot-injection siblings (two string arguments versus one argument spelling their separator in the snapshot syntax). Facts come from a boundary pool and are moved between the two constants when the difference is a compared constant. Oracle: FetchMatchingRules membership and the final sink of every rule built together with its siblings (all build orders up to 3 rules, 3 drawn orders above) equal those of the rule built alone, also for a second call on the same instances on other facts (half of the cases); alone also equals the reference. Non-trivial: the siblings' results differ on the drawn facts. Distinct by the rule texts + state seed."+c07BystanderRule)
 	defer col.Flush()
 	paths := gen.AllPaths(c07StateCfg)
 	check(t, 0, budget(4000, 50000), func(rt *rapid.T) {
@@ -459,7 +530,13 @@ func TestC07(t *testing.T) {
 				orders = append(orders, rapid.Permutation(indexes(len(rules))).Draw(rt, "order"))
 			}
 		}
-		msgs, differ, err := c07Run(rules, st, orders)
+		// half of the cases: the instances serve a second call on other facts
+		var st2 *facts.State
+		if rapid.Bool().Draw(rt, "second_call") {
+			st2 = gen.SeededState(rapid.Uint64Range(0, 1<<20).Draw(rt, "state_seed_of_second_call"), c07StateCfg)
+			labels = append(labels, "second_call_on_the_same_instance")
+		}
+		msgs, differ, err := c07Run(rules, st, orders, st2)
 		if err != nil {
 			// a sibling may be ill-typed (e.g. a negated number): outside the domain
 			col.Case(gast.ExprString(cond), false, "sibling_not_buildable_or_failing")
@@ -485,7 +562,7 @@ func TestC07(t *testing.T) {
 			for _, r := range rules {
 				msg += r.How + ": " + gast.RuleString(r.rule()) + "\n"
 			}
-			path := col.Violation("C07", "C07/"+strings.Join(uniq(labels), ","), msg, c07Case{Rules: enc, Hows: hows(rules), State: st})
+			path := col.Violation("C07", "C07/"+strings.Join(uniq(labels), ","), msg, c07Case{Rules: enc, Hows: hows(rules), State: st, State2: st2})
 			rt.Fatalf("C07 violated: %s (replay %s)", msg, path)
 		}
 	})
@@ -533,7 +610,7 @@ func init() {
 			}
 			rules = append(rules, &c07Rule{Name: r.Name, Cond: r.When, Val: a.RHS, How: how})
 		}
-		msgs, _, err := c07Run(rules, c.State, permutationsCapped(len(rules)))
+		msgs, _, err := c07Run(rules, c.State, permutationsCapped(len(rules)), c.State2)
 		if err != nil {
 			return nil
 		}
